@@ -280,6 +280,68 @@ def catalogue(ctx):
         ctx.decided("switch/%s" % "+".join(d), "catalogue", ok,
                     witness="%s line %d switches between %s" % (m, ln, list(d)),
                     note="every use_numba switch must be covered by a registered twin obligation")
+    # the units named as covering a switch must exist
+    from pvc.harness import UNITS
+    have = set(u["name"] for u in UNITS.get("C07", []))
+    for d, us in REGISTERED_SWITCHES.items():
+        for u in us:
+            if "(bounded)" in u:
+                continue
+            ctx.decided("covering-unit-exists/%s" % u, "catalogue",
+                        any(h == u or h.startswith(u + "/") for h in have),
+                        witness="registered covering unit %s does not exist" % u)
     ctx.decided("switch-count", "catalogue", len(seen) >= 5,
                 witness="only %d switches discovered" % len(seen),
                 note="vacuity guard: the discovery must find the known switches")
+
+
+# ---------------------------------------------------------------------------------------------
+# gas result post-processing twins
+
+def _gas_results(ctx, comp_2d):
+    ctx.assume("A1", "A5", "A4")
+    fluid = K.make_fluid(True, comp_2d=comp_2d)
+    TSW = K.const(BR, "FROM_NODE_T_SWITCHED")
+    spec = T.ArgSpec([
+        ("net", "obj", dict(make=lambda: K.NetObj({"fluid": fluid}),
+                            replay={"kind": "net", "fluid": "hgas"})),
+        ("branch_pit", "pit", dict(rows="b", ncols=NCB, int_cols=INT_B + (TSW,))),
+        ("node_pit", "pit", dict(rows="n", ncols=NCN)),
+        arr("from_nodes", kind="i"), arr("to_nodes", kind="i"),
+        arr("v_mps"), arr("p_from"), arr("p_to")])
+    PAMB = K.const(ND, "PAMB")
+
+    def req(sp):
+        o = sp.objs
+        bp, npit = o["branch_pit"], o["node_pit"]
+        return [forall_rows(sp.NB, lambda i: z3.And(
+            o["from_nodes"].f(i) >= 0, o["from_nodes"].f(i) < sp.NN, o["to_nodes"].f(i) >= 0,
+            o["to_nodes"].f(i) < sp.NN,
+            # the pit columns FROM_NODE / TO_NODE are what extract_all_results passes as arrays
+            z3.ToInt(bp.f(i, FROM_NODE)) == o["from_nodes"].f(i),
+            z3.ToInt(bp.f(i, TO_NODE)) == o["to_nodes"].f(i),
+            z3.Or(z3.ToInt(bp.f(i, TSW)) == 0, z3.ToInt(bp.f(i, TSW)) == 1),
+            npit.f(o["from_nodes"].f(i), PAMB) + o["p_from"].f(i) > 0,
+            npit.f(o["to_nodes"].f(i), PAMB) + o["p_to"].f(i) > 0))]
+    names = ["v_gas_from", "v_gas_to", "v_gas_mean", "p_abs_from", "p_abs_to", "p_abs_mean",
+             "normfactor_from", "normfactor_to", "normfactor_mean"]
+    TIN = K.const(ND, "TINIT")
+    T.twin_check(ctx, "kernel", RX + ":get_branch_results_gas", RX + ":get_branch_results_gas_numba",
+                 spec, [(k, nm, "branch") for k, nm in enumerate(names)], req,
+                 search={"ranges": {"node_pit": {str(TIN): (280.0, 360.0), str(PAMB): (1.0, 1.02)},
+                                    "branch_pit": {str(K.const(BR, "TOUTINIT")): (280.0, 360.0)},
+                                    "p_from": (1.0, 50.0), "p_to": (1.0, 50.0), "v_mps": (-5.0, 5.0)}})
+    for k in (RX + ":get_pressures_numba", RX + ":get_gas_vel_numba"):
+        ctx.use_function(S.get_function(k))
+
+
+@unit("C07", "gas_results/compressibility_1d", functions=[RX + ":get_branch_results_gas",
+                                                         RX + ":get_branch_results_gas_numba"], engine="E2")
+def gas_results_1d(ctx):
+    _gas_results(ctx, False)
+
+
+@unit("C07", "gas_results/compressibility_2d", functions=[RX + ":get_branch_results_gas",
+                                                         RX + ":get_branch_results_gas_numba"], engine="E2")
+def gas_results_2d(ctx):
+    _gas_results(ctx, True)
